@@ -5,7 +5,7 @@ from pathlib import Path
 VERIF = Path(__file__).resolve().parent.parent
 PROPS = [json.loads(l)["id"] for l in open(VERIF / "properties.jsonl")]
 
-HOOK_COMMITS = []  # filled in as hook commits are made in /repo
+HOOK_COMMITS = ["41fbf90", "f0c0cb5"]
 
 MC = "model_checking"
 CHECKS = {
@@ -44,6 +44,11 @@ CHECKS = {
         text="perturbation would make the recorded history diverge from the spec's behaviour; equality of repeated extractions and weakref death of all managers after dropping the stacks are measured on each behaviour",
         note="refcount / collectability / no-crash clauses are measurements on explored behaviours, not model-level facts (DESIGN.md section 6); quick tier replays every fifth behaviour",
         ref="3.6, 4 C06"),
+    "C07": dict(
+        technique="TLA+ specs of the frame snapshot protocol vs. a racing target (FrameSnapshot.tla) and of unwrap_thread's alive/ident protocol with ident reuse (ThreadUnwrap.tla); TLC over every interleaving; interleavings replayed on real threads blocked at guarded probes; blocked-thread exactness; free-running stress in a subprocess",
+        text="no crash / no use-after-free / snapshot consistent with one instruction position / bounded attempts / frames belong to the thread hold on the model for every interleaving (the config without the code's GIL assumption shows the use-after-free and is reported as an assumption); hundreds of interleavings are forced on a real target and a real inspector (3.11, 3.12) and all ThreadUnwrap behaviours incl. ident reuse on 3.9-3.12; blocked threads depth 1..5 x 0..3 managers, unstarted, finished",
+        note="'never crashes' is empirical over the replayed schedules and the stress; F10 fixed; F15 (3.9/3.10 implementation has no protocol; stress can SIGSEGV) known finding; probe placement preserves the atomicity of re-check + slot read",
+        ref="3.5, 4 C07"),
     "C08": dict(
         technique="WithLang.tla behaviours + systematic sweep of 24 target forms x 6 layouts x arity x sync/async; start_line and varname of every reported context compared with the program AST on 3.9-3.12",
         text="which manager is reported where comes from the spec; the line of its with keyword and its target come from the AST that was rendered; varname is parsed and compared structurally",
